@@ -386,7 +386,14 @@ func (p *Path) checkAlloc(in *Interp, n Lin) {
 		return
 	}
 	if !p.branch("alloc-limit", bLin(n.addC(-p.allocLimit), LE0)) {
-		p.violate(fmt.Sprintf("allocation larger than the limit of %d bytes before the bytes arrived", p.allocLimit), nil)
+		label := fmt.Sprintf("allocation larger than the limit of %d bytes before the bytes arrived", p.allocLimit)
+		// prefer a model with a clearly excessive size, so that the native run shows it too
+		big := bLin(linC(64 * p.allocLimit).sub(n), LE0)
+		if p.feasible(big) == Sat {
+			p.violate(label, []*B{big})
+		} else {
+			p.violate(label, nil)
+		}
 	}
 }
 
